@@ -51,6 +51,11 @@ def lower(v, memo=None):
                            lower(v.fields.get('sent', SList()), memo))
             memo[v.oid] = r
             return r
+        if v.kind == 'file':
+            from .ext import FakeFile
+            r = FakeFile(lower(v.fields.get('out', SList()), memo))
+            memo[v.oid] = r
+            return r
         raise CannotLower(f'external {v.kind}')
     if isinstance(v, SList):
         r = []
